@@ -60,7 +60,7 @@ def main():
     with open('/verif/seeded/README.md', 'w') as f:
         f.write('# Independently seeded property-breaking changes\n\n'
                 'Written by fresh sub-agents that saw only the text of one property and a scratch worktree of the library '
-                '(round 1: seeds A, B; round 2: seeds C, D, asked to be subtler and to use other sites than round 1; round 3: seeds E, F, asked for sites and trigger kinds the earlier rounds had not used; round 4: seeds G, H for twelve properties, written after the cross corpus and the decorated variants had been added). Seeds that a later `fix:` commit neutralised are under `_moot/`. '
+                '(round 1: seeds A, B; round 2: seeds C, D, asked to be subtler and to use other sites than round 1; round 3: seeds E, F, asked for sites and trigger kinds the earlier rounds had not used; round 4: seeds G, H, written after the cross corpus and the decorated variants had been added). Seeds that a later `fix:` commit neutralised are under `_moot/`. '
                 'Each directory holds `patch.diff`, `demo_test.go` (fails with the change, passes without; copy to the repository root as '
                 '`zz_demo_test.go` and run `go test -run TestDemo .`), the author\'s `notes.md` and `meta.json`. '
                 'Every seed keeps the repository\'s own 383 tests green (re-verified with `tools/seedverify.sh`).\n\n'
